@@ -371,6 +371,21 @@ def check_eb(rep, ix):
     eb = se.args.args[1].arg
     ok = any(isinstance(n, ast.Assign) and _n(n) == f'self._ebS[{eb}.type]={eb}' for n in walk_no_nested(se))
     rep.ob('R-C08-EB', f'{L}:EntryBlockSet.setEntryBlock', 'a block is stored in the slot of its own type', ok, node=se, module=m)
+    # the set accepts every block type it has a default slot for (a refused type keeps its default on decode: readFromFile
+    # only logs the refusal)
+    n_guard = 0
+    for test, negated, node in common.reject_guards(se):
+        if isinstance(test, ast.Compare) and len(test.ops) == 1 and isinstance(test.ops[0], (ast.NotIn, ast.In)) and _n(test.left) == f'{eb}.type' \
+                and isinstance(test.ops[0], ast.In) == bool(negated):
+            n_guard += 1
+            try:
+                legal = set(ix.fold(L, test.comparators[0]))
+            except (Unfoldable, ValueError, TypeError) as err:
+                legal = None
+            want = set(range(ix.fold_name(L, 'EB_SET_SIZE')))
+            rep.ob('R-C08-EB', f'{L}:EntryBlockSet.setEntryBlock', f'legal block types {_n(test.comparators[0])} cover every slot 0..{max(want)}',
+                   legal is not None and want <= legal, found=str(sorted(legal) if legal is not None else 'not constant'), required=str(sorted(want)),
+                   node=node, module=m)
     rf = ix.get_func(L, 'EntryBlockSet.readFromFile')
     brk = [n for n in walk_no_nested(rf) if isinstance(n, ast.If) and any(isinstance(x, ast.Break) for x in n.body)]
     ok = len(brk) == 1 and show(nf(brk[0].test)) == common.nfs('eb.type == 0')
